@@ -139,6 +139,19 @@ def main():
         ok = inflated[0] <= exp["max_inflate"]
         print(f"{'MATCH' if ok else 'MISMATCH'} largest inflate output {inflated[0]} (bound {exp['max_inflate']})")
         return 0 if ok else 1
+    if "attrs" in exp:
+        # exposed attributes of the opened object against the stored values (computed by the harness from the model)
+        bad = {}
+        for k, v in exp["attrs"].items():
+            if k == "active_header":
+                got = next((i for i, h in enumerate(obj.headers) if h is obj.header), None)
+            else:
+                got = getattr(obj, k)
+                got = int(got) if isinstance(got, (int, bool)) else got
+            if got != v:
+                bad[k] = (got, v)
+        print(f"{'MATCH' if not bad else 'MISMATCH'} exposed attributes (got, stored): {bad if bad else exp['attrs']}"[:900])
+        return 0 if not bad else 1
     if "hyperv_tree" in exp:
         ok = res == exp["hyperv_tree"]
         print(f"{'MATCH' if ok else 'MISMATCH'} decoded {res} stored {exp['hyperv_tree']}"[:900])
